@@ -114,7 +114,7 @@ pub fn replay_under_miri(report: &Report, hs: &[(usize, Vec<Op>)]) -> Result<(),
 pub fn miri_tier(report: &Report, args: &Args, opts: &Options) {
     use proptest::prelude::*;
     report.engine("miri");
-    let want = args.tier.pick(8usize, 300usize);
+    let want = args.tier.pick(8usize, 200usize);
     let max_len = args.tier.pick(12usize, 24usize);
     // candidates: GC-heavy short histories; keep the ones in which a handle is read after a
     // collection or an intern_ref'd row is re-interned, as judged by a native run
